@@ -8,28 +8,31 @@ needs (objective outcomes per global call number, constraint table, gen_vector t
 the direct oracles of both properties (tagged "C05" / "C06"; each check reports its own).
 """
 import contextlib
+import copy
 import io
 import math
 import struct
 import threading
+import time
 
 from harness.core import fl, nl, bl, ll, pl, optl
 
 PROP = "C05"
 THEOREMS = {"Artap.Props.C05": [
     "C05_evaluate_once", "C05_evaluate_once_history", "C05_evaluate_once_all_histories", "C05_evaluated_design_untouched",
-    "C05_repeated_evaluate_adds_no_call", "C05_costs_belong_to_vector", "C05_signed_costs_spec",
+    "C05_repeated_evaluate_adds_no_call", "C05_costs_belong_to_vector", "C05_signed_costs_spec", "C05_stored_precision_kept",
     "C05_marker_ranks_feasible_first", "C05_sweep_order", "C05_scalar_bridge", "C05_scalar_bridge_general",
-    "C05_round7_q_precision", "C05_round7_q_fixpoint"]}
+    "C05_roundp_q_precision", "C05_round7_q_precision", "C05_roundp_q_fixpoint"]}
 AXIOMS_OK = []
 TRUSTED = [
     "Coq 8.16.1 kernel, vm_compute for model evaluation (no native_compute)",
     "hand-written model Model/Job.v tied to job.py / operators.py / individual.py / algorithm_sweep.py by this correspondence run",
     "the objective, the constraint function and VectorAndNumbers.gen_vector are oracles: observed on the implementation and given to the model "
     "as tapes; the theorems hold for every oracle",
-    "np.round(y, 7) = rint(y*1e7)/1e7 with rint by the 2^52 trick and sign * value as a float product: executed bit-exactly in the binary64 "
-    "driver (Run/C05Run.v) and compared bit for bit; the theorems are stated for an abstract round7 / smul (the rational instance is proved "
-    "to be within 5e-8 of its argument)",
+    "np.round(y, decimals=p) = rint(y*10^p)/10^p (rint(y) for p = 0) with rint by the 2^52 trick and sign * value as a float product: "
+    "executed bit-exactly in the binary64 driver (Run/C05Run.v) for the design's stored precision p = features['precision'] and compared "
+    "bit for bit; the theorems are stated for an abstract roundp / smul (the rational instance is proved to be within half a unit of "
+    "the p-th decimal of its argument)",
     "SciPy / NLopt themselves are not modelled: the real optimiser runs of the thorough tier are checked by the direct oracle only",
 ]
 ASSUMPTIONS = [
@@ -38,14 +41,16 @@ ASSUMPTIONS = [
     "design objects are distinguished by identity (two designs with equal vectors are two designs); ids are heap positions in the model",
     "the ranking clause of the marker is stated for problems that declare at least one inequality constraint (without constraints every "
     "design carries the same marker `not 0.0` = True)",
-    "|cost| < 8.9e300: beyond it the scaling inside np.round overflows and numpy returns +-inf (modelled bit-exactly, outside the oracle)",
+    "|cost| * 10^precision < 1.7e308: beyond it the scaling inside np.round overflows and numpy returns +-inf (modelled bit-exactly, "
+    "outside the oracle); stored precision is a non-negative int <= 22 (10^p exact in binary64)",
     "serial evaluation (max_processes <= 1); the parallel branch is the subject of C07",
 ]
 
 HEADER = ("From Artap Require Import Run.C05Run.\nFrom Coq Require Import List ZArith Floats.\nImport ListNotations.\n"
           "Open Scope float_scope.\n")
 
-VGRID = [-2.0, -1.0, -0.5, 0.0, 0.5, 1.0, 1.5, 2.0, 3.0, 0.1, 0.30000000000000004, -0.0, 1e-9, 2.5, 0.7]
+VGRID = [-2.0, -1.0, -0.5, 0.0, 0.5, 1.0, 1.5, 2.0, 3.0, 0.1, 0.30000000000000004, -0.0, 1e-9, 2.5, 0.7,
+         0.5 + 1e-11, 1.0 - 1e-11]      # hash(-1.0) == hash(-2.0); x and x + 1e-11 are "equal" for Individual.__eq__
 TRANSIENT = {"T": TimeoutError, "R": RuntimeError, "N": NotImplementedError, "C": RecursionError}
 FATAL = {"V": (ValueError, 2), "Z": (ZeroDivisionError, 3), "K": (KeyError, 4), "B": (None, 5), "A": (ArithmeticError, 6),
          "O": (OSError, 7)}
@@ -89,12 +94,12 @@ def enc_vec(v):
 
 
 def enc_snap(s):
-    vec, costs, signed, state, feas = s
+    vec, costs, signed, state, feas, prec = s
     if len(signed) == 0:
         sg = "None"
     else:
         sg = "(Some %s)" % pl(enc_vec(signed[:-1]), bl(bool(signed[-1])))
-    return "(mk %s %s %s %s %s)" % (enc_vec(vec), enc_vec(costs), sg, STATES.get(state, "Failed"), bl(feas))
+    return "(mk %s %s %s %s %s %s)" % (enc_vec(vec), enc_vec(costs), sg, STATES.get(state, "Failed"), bl(feas), nl(prec))
 
 
 def enc_result(r):
@@ -146,19 +151,20 @@ def make_G(k, thr, special):
     return G
 
 
-def rounded_ok(cost, s):
-    """`s` is `cost` rounded to 7 decimals, as a statement about real numbers with float slack (R3).
-    None = outside the domain (overflow regime), not checked."""
+def rounded_ok(cost, s, prec=7):
+    """`s` is `cost` rounded to `prec` decimals, as a statement about real numbers with float slack (R3).
+    None = outside the domain (overflow regime of the scaling), not checked."""
     cost, s = float(cost), float(s)
     if math.isnan(cost):
         return math.isnan(s)
     if math.isinf(cost):
         return s == cost
-    if abs(cost) > 1e290:
+    if prec > 22 or abs(cost) * 10.0 ** prec > 1e290:
         return None
-    if abs(s - cost) > 0.5e-7 * (1 + 1e-9) + 4 * math.ulp(cost):
+    unit = 10.0 ** -prec
+    if abs(s - cost) > 0.5 * unit * (1 + 1e-9) + 4 * math.ulp(cost):
         return False
-    t = s * 1e7
+    t = s * 10.0 ** prec
     return abs(t - round(t)) <= 4 * math.ulp(t) if abs(t) < 2.0 ** 53 else True
 
 
@@ -176,6 +182,11 @@ class Lab:
         import artap.operators as ops
         self.ctx = ctx
         self.Individual, self.DummyAlgorithm, self.SweepAlgorithm = Individual, DummyAlgorithm, SweepAlgorithm
+
+        class SubIndividual(Individual):
+            def add_features(self):
+                self.features["extra"] = 1.0
+        self.SubIndividual = SubIndividual
         self.VectorAndNumbers, self.ops, self.logging = VectorAndNumbers, ops, logging
         pyrandom.seed(ctx.rng.getrandbits(64))
         try:
@@ -205,6 +216,7 @@ class Lab:
                 return self.session.constraints(x, super().evaluate_inequality_constraints(x))
         self.ScriptedProblem = ScriptedProblem
         self.cache = {}
+        self.pristine = {}
         self.real_gen_vector = VectorAndNumbers.__dict__["gen_vector"]
 
     def problem_for(self, dim, crit, pstyle, private=False):
@@ -232,6 +244,7 @@ class Lab:
             p.logger.setLevel(self.logging.CRITICAL)
             alg = self.DummyAlgorithm(p)
             self.cache[key] = (p, alg)
+            self.pristine[id(p)] = copy.deepcopy(params)      # the problem definition as the user wrote it
         return self.cache[key]
 
 
@@ -258,7 +271,8 @@ class Session:
 
     def __init__(self, lab, cfg):
         self.lab, self.cfg = lab, cfg
-        self.problem, self.alg = lab.problem_for(cfg["dim"], cfg["crit"], cfg.get("pstyle", 0), cfg.get("processes", 1) > 1)
+        self.problem, self.alg = lab.problem_for(cfg["dim"], cfg["crit"], cfg.get("pstyle", 0),
+                                                 cfg.get("processes", 1) > 1 or cfg.get("private", False))
         p = self.problem
         p.session = self
         p.individuals = []
@@ -281,6 +295,8 @@ class Session:
         self.evaluated_by_run = []
         self.lock = threading.Lock()
         self.in_generate = False
+        self.shared = []
+        self.bounds = lab.pristine[id(self.problem)]
 
     # ---- scripted collaborators ------------------------------------------------------------
     def objective(self, individual):
@@ -298,9 +314,24 @@ class Session:
             self.calls.append((individual, vec, code, e))
             self.outs.append("(Fatal %s)" % nl(kind))
             raise e
-        costs = self.F(vec)
+        costs = self.represent(self.F(vec))
         self.calls.append((individual, vec, "ok", None))
         self.outs.append("(Ok %s)" % enc_vec(costs))
+        return costs
+
+    def represent(self, costs):
+        """the same values as a list of floats / numpy scalars / an ndarray / a tuple / ints where integral"""
+        style = self.cfg.get("ret", "list")
+        if style == "np":
+            import numpy as np
+            return [np.float64(c) for c in costs]
+        if style == "arr":
+            import numpy as np
+            return np.array(costs, dtype=float)
+        if style == "tuple":
+            return tuple(costs)
+        if style == "int":
+            return [int(c) if (math.isfinite(c) and c == int(c) and c != 0 and abs(c) < 2 ** 50) else c for c in costs]
         return list(costs)
 
     def constraints(self, x, base):
@@ -340,7 +371,9 @@ class Session:
             vec = [float(x) for x in ind.vector]
         except (TypeError, ValueError):
             vec = [math.nan] * 9
-        return (vec, list(ind.costs), list(ind.costs_signed), ind.state.name, bool(ind.features.get("feasible")))
+        prec = ind.features.get("precision", 7)
+        prec = prec if isinstance(prec, int) and 0 <= prec < 1000 else 999
+        return (vec, list(ind.costs), list(ind.costs_signed), ind.state.name, bool(ind.features.get("feasible")), prec)
 
     def register(self, ind):
         self.ids[id(ind)] = len(self.objs)
@@ -368,13 +401,33 @@ class Session:
 
     # ---- operations ---------------------------------------------------------------------------
     def mk(self, vec, preset=None):
-        ind = self.lab.Individual(list(vec))
-        if preset:
+        """a design object made by the caller; preset: state, costs, signed, feasible, precision, id (colliding ids),
+        sub (an Individual subclass), vrep (vector as list of floats / ints where integral / numpy scalars / ndarray)"""
+        preset = preset or {}
+        vrep = preset.get("vrep", "list")
+        v = [float(x) for x in vec]
+        if vrep == "int":
+            v = [int(x) if (x == int(x) and not (x == 0 and math.copysign(1, x) < 0)) else x for x in v]
+        elif vrep == "np":
+            import numpy as np
+            v = [np.float64(x) for x in v]
+        elif vrep == "arr":
+            import numpy as np
+            v = np.array(v, dtype=float)
+        cls = self.lab.SubIndividual if preset.get("sub") else self.lab.Individual
+        ind = cls(v)
+        if "state" in preset:
             ind.state = getattr(ind.State, preset["state"])
-            ind.costs = list(preset.get("costs", []))
-            ind.costs_signed = list(preset.get("signed", []))
-            if "feasible" in preset:
-                ind.features["feasible"] = preset["feasible"]
+        if "costs" in preset:
+            ind.costs = list(preset["costs"])
+        if "signed" in preset:
+            ind.costs_signed = list(preset["signed"])
+        if "feasible" in preset:
+            ind.features["feasible"] = preset["feasible"]
+        if "precision" in preset:
+            ind.features["precision"] = preset["precision"]
+        if "id" in preset:
+            ind.id = preset["id"]
         self.register(ind)
         self.ops.append("(OpMk %s)" % enc_snap(self.snap(ind)))
         self.results.append("RUnit")
@@ -390,7 +443,11 @@ class Session:
         return ret, exc
 
     def evaluate(self, ids):
-        batch = [self.objs[i] for i in ids]
+        if self.cfg.get("share_list"):
+            batch = self.shared            # one list object for the whole history, refilled in place
+            batch[:] = [self.objs[i] for i in ids]
+        else:
+            batch = [self.objs[i] for i in ids]
         before = {i: self.snap(self.objs[i]) for i in set(ids)}
         n0, f0, t0 = len(self.calls), len(self.problem.failed), len(self.tape)
         _, exc = self.run_guarded(lambda: self.alg.evaluate(batch))
@@ -428,7 +485,7 @@ class Session:
         else:
             ind = new[0]
             ids = {self.id_of(ind)}
-            self.oracle_jobs("evaluate_scalar", ids, {self.id_of(ind): (list(map(float, x)), [], [], "EMPTY", False)}, n0, f0, t0, exc)
+            self.oracle_jobs("evaluate_scalar", ids, {self.id_of(ind): (list(map(float, x)), [], [], "EMPTY", False, 7)}, n0, f0, t0, exc)
             clean = all(c[2] == "ok" for c in self.calls[n0:])
             if exc is None and clean:
                 want = self.F(list(map(float, x)))
@@ -487,14 +544,14 @@ class Session:
         if exc is None and not (len(firsts) == len(vectors) and all(same_vec(a, b) for a, b in zip(firsts, vectors))):
             self.fail("C05", "sweep: the objective was not invoked for exactly the generator's designs in order",
                       generated=vectors, evaluated=firsts)
-        before = {self.id_of(i): (v, [], [], "EMPTY", False) for i, v in zip(new, vectors)}
+        before = {self.id_of(i): (v, [], [], "EMPTY", False, 7) for i, v in zip(new, vectors)}
         self.oracle_jobs("sweep", set(before), before, n0, f0, t0, exc)
         return res
 
     # ---- direct oracles ------------------------------------------------------------------------
     def check_pair(self, ind, group):
         """stored costs belong to the stored vector; signed costs = sign * rounded cost + marker"""
-        vec, costs, signed, state, feas = self.snap(ind)
+        vec, costs, signed, state, feas, prec = self.snap(ind)
         want = self.F(vec)
         inp = {"vector": vec, "costs": costs, "costs_signed": signed, "criteria": self.cfg["crit"]}
         if not (len(costs) == len(want) and same_vec(costs, want)):
@@ -513,10 +570,10 @@ class Session:
                 if not is_num(s):
                     self.fail("C05", "signed cost %d is not a number" % j, **inp)
                     return
-                ok = rounded_ok(c, -float(s) if mx else float(s))
+                ok = rounded_ok(c, -float(s) if mx else float(s), prec)
                 if ok is False:
-                    self.fail("C05", "signed cost %d = %r is not %scost %r rounded to 7 decimals" % (
-                        j, s, "minus " if mx else "", c), objective=j, **inp)
+                    self.fail("C05", "signed cost %d = %r is not %scost %r rounded to %d decimals" % (
+                        j, s, "minus " if mx else "", c, prec), objective=j, precision=prec, **inp)
                     return
         if self.G is not None:
             g = self.G(vec)
@@ -578,7 +635,7 @@ class Session:
         if len(new_tape) != len(trans):
             self.fail("C06", "%d replacement designs sampled for %d transient failures" % (len(new_tape), len(trans)), **inp)
         for v in new_tape:
-            for x, p in zip(v, self.problem.parameters):
+            for x, p in zip(v, self.bounds):
                 if "bounds" in p and "precision" not in p and not (p["bounds"][0] <= x <= p["bounds"][1]):
                     self.fail("C06", "replacement design outside the bounds", replacement=v, **inp)
         for jn, job in enumerate(jobs):
@@ -680,6 +737,251 @@ class Session:
                 "final": [self.snap(o) for o in self.objs][:10]}
 
 
+class ParSession(Session):
+    """Interleaved evaluation: outcomes are scripted per (design, attempt), everything is recorded per design.
+    processes = 2: joblib threads.  processes = 1 with `nest`: the objective of design d starts, on its first
+    attempt, a complete Job.evaluate of another design on the same long-lived Job object before it answers
+    (what a thread switch inside the objective does): re-entrancy of Job / Evaluator."""
+
+    def __init__(self, lab, cfg, patterns, processes=2, nest=None):
+        super().__init__(lab, dict(cfg, processes=processes, private=True))
+        self.nest = nest if nest is not None else {}      # shared with the caller, who fills it after creating the designs
+        self.patterns = patterns           # design id -> list of codes by attempt
+        self.dcalls = {}                   # design id -> [(vec, code, exc)]
+        self.drolls = {}                   # design id -> [vec]
+        self.dresult = {}                  # design id -> exception or None
+        self.dstore = {}
+        self.local = threading.local()
+        self.active = 0
+
+    def objective(self, individual):
+        with self.lock:
+            did = self.id_of(individual)
+            att = len(self.dcalls.setdefault(did, []))
+            pat = self.patterns.get(did, [])
+            code = pat[att] if att < len(pat) else "ok"
+            vec = [float(x) for x in individual.vector]
+            exc = None
+            if code in TRANSIENT:
+                exc = TRANSIENT[code]("scripted transient failure of design %d attempt %d" % (did, att))
+            elif code in FATAL:
+                cls, kind = FATAL[code]
+                exc = (cls or self.lab.BaseExc)("scripted failure of design %d attempt %d" % (did, att))
+            self.dcalls[did].append((vec, code, exc))
+            self.calls.append((individual, vec, code, exc))
+            self.local.did = did
+            self.local.session = self
+            inner = self.nest.pop(did, None) if att == 0 else None
+        if inner is not None:
+            try:
+                self.alg.evaluator.job.evaluate(self.objs[inner])       # recorded by the wrapper of run_parallel
+            except BaseException:                                          # noqa: the nested caller catches everything
+                pass
+            self.local.did = did
+        if exc is not None:
+            raise exc
+        return self.represent(self.F(vec))
+
+    def constraints(self, x, base_value):
+        with self.lock:
+            return super().constraints(x, base_value)
+
+    def gen_vector_wrapper(self):
+        session = self
+        real = self.lab.real_gen_vector.__func__
+
+        def gen_vector(cls, design_parameters):
+            v = real(cls, design_parameters)
+            if getattr(session.local, "session", None) is not session:
+                return v                       # a thread that is not working for this session
+            with session.lock:
+                session.drolls.setdefault(getattr(session.local, "did", -1), []).append([float(x) for x in v])
+                session.tape.append([float(x) for x in v])
+            return v
+        return classmethod(gen_vector)
+
+    def run_parallel(self, ids):
+        batch = [self.objs[i] for i in ids]
+        before = {i: self.snap(self.objs[i]) for i in ids}
+        job = self.alg.evaluator.job
+        real_evaluate = job.evaluate
+
+        def evaluate(individual):
+            with self.lock:
+                self.active += 1
+            try:
+                real_evaluate(individual)
+                with self.lock:
+                    self.dresult[self.id_of(individual)] = None
+            except BaseException as e:
+                with self.lock:
+                    self.dresult[self.id_of(individual)] = e
+                raise
+            finally:
+                with self.lock:
+                    self.active -= 1
+        job.evaluate = evaluate
+        exc = None
+        try:
+            with self.patched():
+                try:
+                    self.alg.evaluate(batch)
+                except BaseException as e:      # noqa: the caller's view of what propagates
+                    exc = e
+                # worker threads may still be inside a job when the exception reaches the caller: let them finish
+                t0, quiet = time.time(), 0
+                while quiet < 4 and time.time() - t0 < 5:
+                    time.sleep(0.005)
+                    quiet = quiet + 1 if self.active == 0 else 0
+        finally:
+            del job.evaluate
+        return before, exc
+
+
+def design_patterns():
+    """every way one job can go: ('ok', j) success after j transient failures, ('fatal', j), ('five',)"""
+    return [("ok", j) for j in range(5)] + [("fatal", j) for j in range(5)] + [("five",)]
+
+
+def pattern_codes(rng, pat):
+    tr, fa = list(TRANSIENT), list(FATAL)
+    if pat[0] == "five":
+        return [rng.choice(tr) for _ in range(5)]
+    codes = [rng.choice(tr) for _ in range(pat[1])]
+    codes.append("ok" if pat[0] == "ok" else rng.choice(fa))
+    return codes
+
+
+def interleaved_case(lab, rng, ctx, out, hist, group, nested=False, faults=True):
+    """one Algorithm.evaluate on distinct new designs (plus designs that must be skipped): with max_processes = 2,
+    or serial with nested evaluations of further designs started from inside the objective"""
+    n = rng.choice([2, 3, 4, 6])
+    if faults:
+        pats = [rng.choice(design_patterns()) if rng.random() < (0.25 if nested else 0.5) else ("ok", rng.choice([0, 0, 1, 2])) for _ in range(2 * n)]
+    else:
+        pats = [("ok", 0)] * (2 * n)
+    cfg = rand_cfg(rng, pstyle=0, extra=0)
+    patterns, nest = {}, {}
+    s = ParSession(lab, cfg, patterns, processes=1 if nested else 2, nest=nest)
+    ids = []
+    pool = [rand_vec(rng, cfg["dim"]) for _ in range(2)]
+    for p in pats[:n]:
+        i = s.mk(rand_vec(rng, cfg["dim"], pool), {"precision": rng.choice([7, 7, 3, 10])} if rng.random() < 0.3 else None)
+        patterns[i] = pattern_codes(rng, p)
+        ids.append(i)
+    inner = []
+    if nested:
+        for p, outer in zip(pats[n:], ids):
+            if rng.random() < 0.7:
+                i = s.mk(rand_vec(rng, cfg["dim"], pool))
+                patterns[i] = pattern_codes(rng, p)
+                nest[outer] = i
+                inner.append(i)
+    skipped = []
+    for st in rng.sample(["EVALUATED", "IN_PROGRESS", "FAILED"], rng.choice([0, 1, 2])):
+        i = s.mk(rand_vec(rng, cfg["dim"]), junk_preset(rng, st, len(cfg["crit"])))
+        skipped.append(i)
+    batch = ids + skipped
+    rng.shuffle(batch)
+    nest_plan = dict(nest)
+    before, exc = s.run_parallel(batch)
+    for i in inner:
+        before[i] = (s.dcalls[i][0][0] if s.dcalls.get(i) else [], [], [], "EMPTY", False, 7)
+    ids = ids + inner
+    label = "nested" if nested else "parallel"
+    hist[label + "_runs"] = hist.get(label + "_runs", 0) + 1
+    inp = {"batch": batch, "patterns": {str(k): v for k, v in patterns.items()}, "processes": 1 if nested else 2,
+           "nested_evaluations": {str(k): v for k, v in nest_plan.items()},
+           "states_before": {str(i): before[i][3] for i in before}}
+
+    def fail(what, **kw):
+        if len(ctx.oracle_failures) < 40:
+            ctx.oracle_failures.append({"what": label + ": " + what, "input": dict(inp, **kw),
+                                        "match": {"kind": "job_" + label, "clause": what[:50]}})
+    # ---- direct oracle
+    raised = {d: e for d, e in s.dresult.items() if e is not None and d not in inner}
+    if raised and exc is None:
+        fail("a job raised %s but Algorithm.evaluate returned normally" % ", ".join(type(e).__name__ for e in raised.values()))
+    if exc is not None and not any(type(exc) is type(e) for e in raised.values()):
+        fail("the caller saw %r, which no job raised" % (exc,))
+    for i in skipped:
+        if s.dcalls.get(i):
+            fail("objective invoked for a design that is %s" % before[i][3], design=i)
+    trans = sorted(vkey(c[0]) for cs in s.dcalls.values() for c in cs if c[1] in TRANSIENT)
+    failed = sorted(vkey(s.snap(f)[0]) for f in s.problem.failed)
+    if trans != failed:
+        fail("problem.failed is not the multiset of the vectors of the failed attempts",
+             failed=[s.snap(f)[0] for f in s.problem.failed])
+    if any(f.state.name != "FAILED" for f in s.problem.failed):
+        fail("a failed copy is not marked FAILED")
+    for d, cs in s.dcalls.items():
+        if d not in ids:
+            continue
+        ind = s.objs[d]
+        hist[label + "_designs"] = hist.get(label + "_designs", 0) + 1
+        codes = [c[1] for c in cs]
+        res = s.dresult.get(d, "unfinished")
+        if len(cs) > 5:
+            fail("%d attempts for one design" % len(cs), design=d)
+        if any(c not in TRANSIENT for c in codes[:-1]):
+            fail("the job went on after an attempt that did not fail transiently", design=d, outcomes=codes)
+        rolls = s.drolls.get(d, [])
+        if len(rolls) != sum(1 for c in codes if c in TRANSIENT):
+            fail("%d replacement designs for %d transient failures" % (len(rolls), sum(1 for c in codes if c in TRANSIENT)), design=d)
+        for k in range(1, len(cs)):
+            if k - 1 < len(rolls) and not same_vec(cs[k][0], rolls[k - 1]):
+                fail("the retry was not made with the freshly sampled design", design=d)
+        for v in rolls:
+            if any(not (p["bounds"][0] <= x <= p["bounds"][1]) for x, p in zip(v, s.bounds)):
+                fail("replacement design outside the bounds", replacement=v)
+        last = codes[-1]
+        if last == "ok":
+            if res is not None:
+                fail("job raised %r although its last attempt succeeded" % (res,), design=d)
+            elif ind.state.name != "EVALUATED":
+                fail("design is %s after a successful attempt" % ind.state.name, design=d)
+            else:
+                s.check_pair(ind, group)
+        elif last in FATAL:
+            if res is not cs[-1][2]:
+                fail("a non-transient %s did not propagate out of the job at once (job result %r)" % (type(cs[-1][2]).__name__, res), design=d)
+            elif ind.state.name == "EVALUATED":
+                fail("design marked evaluated although its evaluation raised", design=d)
+        else:
+            if len(cs) == 5 and type(res) is not RuntimeError:
+                fail("five consecutive failures did not raise RuntimeError (job result %r)" % (res,), design=d)
+            elif len(cs) < 5:
+                fail("design given up after %d failed attempt(s)" % len(cs), design=d, job_result=repr(res))
+    for g, what, detail in s.failures:
+        if g == group:
+            fail(what, **detail)
+    # ---- one model case per design that was started
+    table = ll(list(s.cons.values()), lambda p: pl(enc_vec(p[0]), enc_vec(p[1])))
+    store_by = {}
+    for o, snap in s.store:
+        store_by.setdefault(s.id_of(o), []).append(snap)
+    for d in ids:
+        cs = s.dcalls.get(d)
+        if not cs or d not in s.dresult:
+            hist[label + "_not_started"] = hist.get(label + "_not_started", 0) + 1
+            continue
+        outs = []
+        for vec, code, e in cs:
+            outs.append("Transient" if code in TRANSIENT else "(Fatal %s)" % nl(FATAL[code][1]) if code in FATAL
+                        else "(Ok %s)" % enc_vec(s.represent(s.F(vec))))
+        case = "par_design_case %s %s %s %s %s %s" % (ll(s.signs, bl), enc_vec(before[d][0]), nl(before[d][5]), ll(outs), table,
+                                                     ll(s.drolls.get(d, []), enc_vec))
+        res = Session.classify(s.dresult[d])
+        expected = pl(ll(["RUnit", "(RRes %s)" % enc_result(res)]),
+                      ll([enc_snap(s.snap(s.objs[d]))]), "[]",
+                      ll([enc_snap((c[0], [], [], "FAILED", False, 7)) for c in cs if c[1] in TRANSIENT]),
+                      ll([pl(nl(0), enc_snap(x)) for x in store_by.get(d, [])]),
+                      ll([pl(nl(0), enc_vec(c[0])) for c in cs]), "true")
+        out.append((case, expected, {label: True, "design": d, "outcomes": [c[1] for c in cs],
+                                     "vectors": [c[0] for c in cs], "result": str(res), "final": s.snap(s.objs[d])}))
+        ctx.count((label, tuple(c[1] for c in cs), str(res), d in inner), nontrivial=nested or len(cs) > 1)
+
+
 def rand_cfg(rng, **force):
     m = rng.choice([1, 1, 2, 2, 3])
     dim = rng.choice([1, 2, 2, 3])
@@ -688,7 +990,8 @@ def rand_cfg(rng, **force):
            "coef": [[rng.choice([0.123456789, -1.0 / 3.0, 2.5, 0.0, 1e-3])] + [rng.choice([1.0, -0.7, 1.0 / 7.0, 3.3]) for _ in range(3)]
                     for _ in range(5)],
            "thr": [rng.choice(VGRID) for _ in range(2)], "extra": rng.choice([0] * 30 + [1, -1]),
-           "pstyle": rng.choice([0, 0, 0, 1, 2]), "schedule": []}
+           "pstyle": rng.choice([0, 0, 0, 1, 2]), "schedule": [],
+           "ret": rng.choice(["list", "list", "np", "arr", "tuple", "int"]), "share_list": rng.random() < 0.5}
     cfg.update(force)
     return cfg
 
@@ -700,12 +1003,37 @@ def rand_vec(rng, dim, pool=None):
 
 
 def junk_preset(rng, state, m):
+    """a design whose fields were left by someone else: the model must treat them as data"""
     costs = [rng.choice([1.0, 2.5, -3.0, 0.1234567891]) for _ in range(m)]
-    p = {"state": state, "costs": costs if state == "EVALUATED" or rng.random() < 0.3 else []}
-    if p["costs"]:
+    p = {"state": state, "costs": costs if (state == "EVALUATED" and rng.random() < 0.8) or rng.random() < 0.4 else []}
+    if p["costs"] or rng.random() < 0.3:
         p["signed"] = [c * rng.choice([1, -1]) for c in p["costs"]] + [rng.choice([True, False])]
         p["feasible"] = rng.choice([True, False, 0.0])
     return p
+
+
+def rand_preset(rng, m):
+    """every field the model treats as data varies: state (EMPTY with left-over costs too), precision, colliding ids,
+    subclass, representation of the vector"""
+    q = rng.random()
+    pre = {}
+    if q < 0.15:
+        pre = junk_preset(rng, "EVALUATED", m)
+    elif q < 0.22:
+        pre = junk_preset(rng, "IN_PROGRESS", m)
+    elif q < 0.27:
+        pre = junk_preset(rng, "FAILED", m)
+    elif q < 0.35:
+        pre = junk_preset(rng, "EMPTY", m)
+    if rng.random() < 0.25:
+        pre["precision"] = rng.choice([0, 1, 3, 6, 10, 12, 15])
+    if rng.random() < 0.2:
+        pre["id"] = rng.choice([0, 3, 3, 7])
+    if rng.random() < 0.15:
+        pre["sub"] = True
+    if rng.random() < 0.3:
+        pre["vrep"] = rng.choice(["int", "np", "arr"])
+    return pre or None
 
 
 def make_generator(lab, rng, problem, dim):
@@ -774,15 +1102,7 @@ def random_history(lab, rng, fault_rate=0.0, fatal_rate=0.0, force=None):
             break
         if r < 0.25 or not s.objs:
             for _ in range(rng.choice([1, 2, 3, 5])):
-                q = rng.random()
-                preset = None
-                if q < 0.15:
-                    preset = junk_preset(rng, "EVALUATED", m)
-                elif q < 0.22:
-                    preset = junk_preset(rng, "IN_PROGRESS", m)
-                elif q < 0.27:
-                    preset = junk_preset(rng, "FAILED", m)
-                s.mk(rand_vec(rng, dim, pool), preset)
+                s.mk(rand_vec(rng, dim, pool), rand_preset(rng, m))
         elif r < 0.6:
             k = rng.choice([1, 2, 3, 4, 6])
             ids = [rng.randrange(len(s.objs)) for _ in range(k)]
@@ -877,6 +1197,25 @@ def corpus(lab):
         s.evaluate([0])
         s.scalar([0.0, 2.0])
         out.append(s.freeze())
+    # vectors with equal hashes (hash(-1.0) == hash(-2.0)) and vectors that Individual.__eq__ calls equal (1e-11 apart):
+    # distinct designs, each evaluated once with its own costs; the same batch list object refilled in place
+    s = Session(lab, dict(base, dim=1, crit=["maximize"], ncons=0, share_list=True, ret="np"))
+    for v in ([-1.0], [-2.0], [0.5], [0.5 + 1e-11], [0.5], [1.0], [1.0 - 1e-11]):
+        s.mk(v)
+    s.evaluate([0, 1, 2])
+    s.evaluate([3, 4, 5, 6, 0])
+    s.evaluate([6, 5, 4, 3, 2, 1, 0])
+    out.append(s.freeze())
+    # stored precision other than 7, left-over costs on an EMPTY design, colliding ids, subclass, array vector
+    s = Session(lab, dict(base, ret="arr"))
+    s.mk([0.1, 0.7], {"precision": 3, "id": 5})
+    s.mk([0.1, 0.7], {"precision": 0, "id": 5, "sub": True})
+    s.mk([1.0, 2.0], {"precision": 12, "vrep": "arr", "state": "EMPTY", "costs": [4.0, 4.0], "signed": [4.0, -4.0, False], "feasible": True})
+    s.mk([1.0, 2.0], {"state": "EVALUATED", "costs": [], "vrep": "int"})
+    s.mk([3.0, -2.0], {"precision": 15, "vrep": "np"})
+    s.evaluate([0, 1, 2, 3, 4])
+    s.evaluate([4, 3, 2, 1, 0])
+    out.append(s.freeze())
     # no objective at all: costs_signed[0] is the marker
     s = Session(lab, dict(base, crit=[], ncons=1))
     s.scalar([0.0, 0.0])
@@ -914,10 +1253,22 @@ def run(ctx):
                    tuple(s.id_of(c[0]) for c in s.calls)), nontrivial=len(s.calls) > 1)
         if len(s.calls) > 2 and len(s.ops) <= 8:
             ctx.sample(s.meta())
+    # the long-lived Job / Evaluator re-entered from inside the objective (a nested evaluation of another design)
+    inter = []
+    for k in range(ctx.pick(80, 1500)):
+        interleaved_case(lab, rng, ctx, inter, hist, "C05", nested=True, faults=k % 3 == 0)
+    for c, e, m in inter:
+        cases.append(c)
+        expected.append(e)
+        meta.append(m)
     if ctx.thorough:
         real_optimisers(ctx, lab, hist)
     ctx.coq_compare("c05", HEADER, "job_case", "job_obs", "job_run", "job_obs_eqb", cases, expected, meta, shard=ctx.pick(80, 400))
-    ctx.rule = ("histories of 2..8 operations on one scripted Problem (create designs incl. pre-set EVALUATED / IN_PROGRESS / FAILED ones, "
+    ctx.rule = ("histories of 2..8 operations on one scripted Problem with long-lived Algorithm / Evaluator / Job objects (create designs incl. "
+                "pre-set EVALUATED / IN_PROGRESS / FAILED / EMPTY-with-left-over-costs ones, stored precision 0..15, colliding ids, subclass, "
+                "vector as floats / ints / numpy scalars / ndarray, objective returning list / numpy scalars / ndarray / tuple / ints, the "
+                "same batch list object refilled in place, equal / hash-colliding / 1e-11-apart vectors; plus nested evaluations started "
+                "from inside the objective, compared design by design; "
                 "Algorithm.evaluate on batches with repeats and aliasing, repeated evaluate of the same batch, Evaluator.evaluate_scalar, "
                 "SweepAlgorithm over artap's generators), 1..3 objectives over minimise/maximise/undeclared, 0..2 constraints, cost modes %r, "
                 "vectors from a 15-value grid; a history is non-trivial when the objective was invoked more than once; distinct = distinct "
@@ -979,11 +1330,11 @@ LEVEL_TEXT = ("Machine-checked Coq theorems over a state-machine model of Job.ev
               "SweepAlgorithm.run / Individual.calc_signed_costs (shared with C06), for every batch (any mix of new, evaluated, in-progress "
               "designs, repeats, aliasing), every number of repeated evaluate calls, every objective / constraint function / fault schedule "
               "and every minimise/maximise assignment: exactly one successful objective call per not-yet-evaluated design and none for an "
-              "evaluated one, stored costs = objective value of the stored vector, signed costs = sign * round7(cost) followed by the marker, "
+              "evaluated one, stored costs = objective value of the stored vector, signed costs = sign * round(cost, stored precision) followed by the marker, "
               "marker precedence composed with C01, sweep order, scalar bridge. The model is tied to the code on every run by evaluating it "
               "in Coq on generated histories and comparing call log, every design's (vector, costs, costs_signed, state), problem.individuals, "
               "problem.failed and the sync log bit for bit.")
 LEVEL_NOTE = ("Trusted: Coq kernel + vm_compute; the hand-written model and the Python harness; objective, constraints and gen_vector are "
-              "oracles; np.round is modelled bit-exactly in the binary64 driver while the theorems treat round7 abstractly (rational instance "
-              "proved within 5e-8). SciPy/NLopt are not modelled (thorough tier: direct oracle on one real run each). Serial evaluation only "
+              "oracles; np.round is modelled bit-exactly in the binary64 driver while the theorems treat roundp abstractly (rational instance "
+              "proved within half a unit of the last kept decimal). SciPy/NLopt are not modelled (thorough tier: direct oracle on one real run each). Serial evaluation only "
               "(parallel = C07). Correspondence is sampled, the theorems are unbounded.")
